@@ -501,7 +501,9 @@ class Project(MessageHandler):
         # Primary: priority (desc), Secondary: pathcriticalness (desc), Tertiary: seqno (asc)
         # Note: attributes might return None, need safe access for sorting
         def sort_key(t: Any) -> tuple[int, float, int]:
-            prio = t.get("priority", scIdx) or 500
+            prio = t.get("priority", scIdx)
+            if prio is None:
+                prio = 500  # 0 is a valid (the lowest) priority
             crit = t.get("pathcriticalness", scIdx) or 0.0
             seq = t.get("seqno") or 0
             return (-prio, -crit, seq)
